@@ -725,6 +725,36 @@ class Exec:
         p.heap[oid] = {"cls": "builtins.dict", "origin": "fresh", "attrs": {"contents": z3.Const("emptydict", Val)}}
         return [(p, PyDict(oid))]
 
+    def _comprehension(self, e, p):
+        """a comprehension the executor does not unfold: an UNINTERPRETED function (named after its source text) of the values of
+        its free variables -- some deterministic value about which nothing else is known.  Calls inside it must resolve to pure
+        builtins / str methods; anything else (first-party calls, environment-dependent modules) stays out of subset."""
+        bound = set()
+        for g in e.generators:
+            for n in ast.walk(g.target):
+                if isinstance(n, ast.Name):
+                    bound.add(n.id)
+        for n in ast.walk(e):
+            if isinstance(n, ast.Call):
+                f = n.func
+                if isinstance(f, ast.Name) and f.id not in BUILTINS and f.id not in bound:
+                    raise OutOfSubset("call of %s inside a comprehension (line %d)" % (f.id, e.lineno))
+                if isinstance(f, ast.Name) and f.id in ("print", "exec", "eval", "open", "input", "setattr", "id", "hash", "globals", "locals", "vars"):
+                    raise OutOfSubset("impure builtin inside a comprehension (line %d)" % e.lineno)
+            if isinstance(n, (ast.Yield, ast.YieldFrom, ast.Await, ast.NamedExpr, ast.Lambda)):
+                raise OutOfSubset("comprehension with %s (line %d)" % (type(n).__name__, e.lineno))
+        free = sorted({n.id for n in ast.walk(e) if isinstance(n, ast.Name) and isinstance(n.ctx, ast.Load) and n.id not in bound and n.id not in BUILTINS})
+        args = []
+        for name in free:
+            outs = self.ex_Name(ast.copy_location(ast.Name(id=name, ctx=ast.Load()), e), p)
+            if len(outs) != 1 or isinstance(outs[0][1], Raise):
+                raise OutOfSubset("free variable %s of a comprehension (line %d)" % (name, e.lineno))
+            args.append(to_val(outs[0][1]))
+        f = z3.Function("comp:" + " ".join(ast.unparse(e).split())[:200], *([Val] * len(args) + [Val]))
+        return [(p, f(*args) if args else z3.Const("comp:" + ast.unparse(e)[:200], Val))]
+
+    ex_DictComp = ex_ListComp = ex_SetComp = ex_GeneratorExp = _comprehension
+
     def ex_IfExp(self, e, p):
         out = []
         for p1, c in self.expr(e.test, p):
@@ -821,6 +851,28 @@ class Exec:
                 r = z3.BoolVal(isinstance(a, PyNoneT) and isinstance(b, PyNoneT))
                 return r if isinstance(op, ast.Eq) else z3.Not(r)
             raise OutOfSubset("ordering comparison with None")
+        for x, y in ((a, b), (b, a)):
+            if isinstance(x, QName) and x.q in ("math.inf", "math.nan") and z3.is_expr(y) and is_num(y):
+                # A-real keeps floats as reals + an uninterpreted finiteness flag: `v == inf` is a second flag that implies
+                # non-finiteness (NaN is non-finite and equal to nothing); ordering against inf is decided by the flags too
+                yr = z3.ToReal(y) if y.sort() == I else y
+                fin = z3.Function("isfinite", R, B)(yr)
+                posinf = z3.Function("is_posinf", R, B)(yr)
+                p.facts.append(z3.Implies(posinf, z3.Not(fin)))
+                if x.q == "math.nan":
+                    return z3.BoolVal(isinstance(op, ast.NotEq))
+                if isinstance(op, ast.Eq):
+                    return posinf
+                if isinstance(op, ast.NotEq):
+                    return z3.Not(posinf)
+                lt_inf = z3.Or(fin, z3.Function("is_neginf", R, B)(yr))       # y < inf
+                if (isinstance(op, ast.Lt) and x is b) or (isinstance(op, ast.Gt) and x is a):
+                    return lt_inf
+                if (isinstance(op, ast.LtE) and x is b) or (isinstance(op, ast.GtE) and x is a):
+                    return z3.Or(lt_inf, posinf)
+                if (isinstance(op, ast.GtE) and x is b) or (isinstance(op, ast.LtE) and x is a):
+                    return posinf
+                return z3.BoolVal(False)      # y > inf
         if not (z3.is_expr(a) and z3.is_expr(b)):
             if isinstance(op, (ast.Eq, ast.NotEq)) and any(z3.is_expr(x) and x.sort() == Val for x in (a, b)):
                 r = to_val(a) == to_val(b)       # an opaque value against a list / tuple / object: equality of the injections
